@@ -13,7 +13,7 @@ run_one() {
   out=$(timeout 900 /verif/bin/govc check $prop -repo $D -no-evidence 2>&1)
   rm -rf $D
   if echo "$out" | grep -q "^VIOLATION"; then
-    r=no; echo "$out" | grep -q "replayed on the real code\|^BOUNDED.*under concurrent use (" && r=yes
+    r=no; echo "$out" | grep -q "replayed on the real code\|^BOUNDED.*under concurrent use (\|^BOUNDED.*String() =\|^BOUNDED.*the code under test crashed" && r=yes
     echo "$name caught replayed=$r"
   else
     echo "$name MISSED"
